@@ -85,7 +85,7 @@ PROPS["C03"] = {
          "plan": {"tri": False, "sws": q(tier, "SOME", "ALL"), "adv": q(tier, 6, 16), "validate": True}},
     ],
     "gens": lambda tier: [{"topic": "adv", "n": q(tier, 120, 3000)}, {"topic": "big", "n": q(tier, 4, 16)},
-                          {"topic": "typ", "n": q(tier, 300, 6000)}],
+                          {"topic": "typ", "n": q(tier, 300, 6000)}, {"topic": "condfuzz", "n": q(tier, 800, 15000)}],
     "rules": ["load_outcome", "load_panic", "opt_panic", "match_panic", "validate_panic", "ser_panic"],
     "chunk": 1500,
 }
@@ -160,7 +160,7 @@ PROPS["C09"] = {
          "forms": ["key", "intkey", "fltkey", "strkey", "cond_int", "cond_int_rev", "cond_flt", "cond_flt_rev",
                    "cond_int_fields", "cond_flt_fields", "cond_str_fields"], "workers": 8},
     ],
-    "gens": lambda tier: [{"topic": "num", "n": q(tier, 500, 20000)}],
+    "gens": lambda tier: [{"topic": "num", "n": q(tier, 500, 20000)}, {"topic": "typ", "n": q(tier, 300, 6000)}],
     "rules": ["oracle", "tri_oracle", "tri_both", "match_panic", "load_outcome"],
     "chunk": 150,
 }
